@@ -72,45 +72,65 @@ fn write_until_broken(mut wtr: swimos_byte_channel::ByteWriter, deadline: Durati
 }
 
 fn race(rounds: u64, seed: u64) -> String {
-    let mut rng = Rng::new(seed);
+    use std::sync::mpsc::sync_channel;
+    let deadline = Duration::from_millis(300);
+    // persistent thread pairs: the first creates channels and closes its half at once, the second receives the other
+    // half and waits for the close; both directions
+    let mut handles = vec![];
+    for pair in 0..2u64 {
+        let (tx_r, rx_r) = sync_channel::<swimos_byte_channel::ByteReader>(1);
+        let (tx_w, rx_w) = sync_channel::<swimos_byte_channel::ByteWriter>(1);
+        let waiter = thread::spawn(move || {
+            let mut lost = 0u64;
+            loop {
+                // alternate: a reader to drain to the end of the stream, then a writer to push into a broken pipe
+                match rx_r.recv() {
+                    Ok(r) => {
+                        if !read_to_end(r, deadline) {
+                            lost += 1;
+                        }
+                    }
+                    Err(_) => break,
+                }
+                match rx_w.recv() {
+                    Ok(w) => {
+                        if !write_until_broken(w, deadline) {
+                            lost += 1;
+                        }
+                    }
+                    Err(_) => break,
+                }
+            }
+            lost
+        });
+        let closer = thread::spawn(move || {
+            let mut rng = Rng::new(seed.wrapping_mul(31).wrapping_add(pair));
+            for _ in 0..rounds {
+                let cap = rng.range(1, 8) as usize;
+                let (wtr, rdr) = byte_channel(NonZeroUsize::new(cap).unwrap());
+                if tx_r.send(rdr).is_err() {
+                    break;
+                }
+                for _ in 0..rng.below(60) {
+                    std::hint::spin_loop();
+                }
+                drop(wtr);
+                let (wtr, rdr) = byte_channel(NonZeroUsize::new(cap).unwrap());
+                if tx_w.send(wtr).is_err() {
+                    break;
+                }
+                for _ in 0..rng.below(60) {
+                    std::hint::spin_loop();
+                }
+                drop(rdr);
+            }
+        });
+        handles.push((waiter, closer));
+    }
     let mut lost = 0u64;
-    let deadline = Duration::from_millis(400);
-    for _ in 0..rounds {
-        let cap = rng.range(1, 8) as usize;
-        let (wtr, rdr) = byte_channel(NonZeroUsize::new(cap).unwrap());
-        let spin_a = rng.below(200);
-        let spin_b = rng.below(200);
-        if rng.chance(1, 2) {
-            // writer goes away while the reader may be registering its waker
-            let h = thread::spawn(move || {
-                for _ in 0..spin_a {
-                    std::hint::spin_loop();
-                }
-                read_to_end(rdr, deadline)
-            });
-            for _ in 0..spin_b {
-                std::hint::spin_loop();
-            }
-            drop(wtr);
-            if !h.join().unwrap() {
-                lost += 1;
-            }
-        } else {
-            // reader goes away while the writer may be parking on a full buffer
-            let h = thread::spawn(move || {
-                for _ in 0..spin_a {
-                    std::hint::spin_loop();
-                }
-                write_until_broken(wtr, deadline)
-            });
-            for _ in 0..spin_b {
-                std::hint::spin_loop();
-            }
-            drop(rdr);
-            if !h.join().unwrap() {
-                lost += 1;
-            }
-        }
+    for (waiter, closer) in handles {
+        closer.join().unwrap();
+        lost += waiter.join().unwrap();
     }
     format!("rounds={} lost={}", rounds, lost)
 }
@@ -135,7 +155,7 @@ fn main() {
             let mut rng = Rng::new(seed);
             for c in 0..cases {
                 t.case(format!("{} seed={}", c, seed));
-                run_case(&mut t, &[format!("race 4000 {}", rng.next() % 1_000_000)]);
+                run_case(&mut t, &[format!("race 40000 {}", rng.next() % 1_000_000)]);
             }
             t.finish();
         }
